@@ -346,6 +346,10 @@ def run_check(eng, tier, jobs=None, runs=None, quiet=False):
     }
     zero = [p for p in eng.expected_probes if agg["stats"].get("probe:" + p, 0) == 0]
     cov["reach_warnings"] = zero
+    if agg["stats"].get("fidelity-runs"):
+        cov["traces_validated_against_impl"] = agg["stats"]["fidelity-runs"]
+        cov["fidelity"] = ("%d end states re-run by a REAL python process (tools/realproc.py) and by a fresh simulated process: same outcome per class "
+                           "(definition raised?, behaviour digest, code digests) and same generated sources in all of them" % agg["stats"]["fidelity-runs"])
     cov.update(extra)
     if cov.get("exhaustive_part"):
         cov["explanation"] = cov.get("explanation", "")
